@@ -1,7 +1,8 @@
 /-
   Proofs/MixtureDMMeasure.lean — Z measurements on a stabilizer mixture at the Hilbert-space level, every number of qubits.
 
-  `MixedStabilizer.apply_measurement` measures every branch on its own.  When all branches agree on "random?" and on the
+  HISTORICAL (graphiq before the repair of finding F2; `Mix.measureOld`): `MixedStabilizer.apply_measurement` measured every
+  branch on its own.  When all branches agree on "random?" and on the
   outcome (`uniformMeas`, the flag the model's `StabSt.nonUniform` accumulates), per-branch measurement *is* the joint
   measurement of `R = Σ_k w_k ρ(T_k)`:
 
@@ -98,11 +99,22 @@ theorem zMeasure_stabReal (t : Tab) (hv : t.Valid) (hr : t.StabReal) (q : Nat) (
     exact measRandom_stabReal t hv hr q p o h1 h2
   · exact hr
 
-theorem measure_good (n q : Nat) (hq : q < n) (det : Bool) (m : Mixture) (hm : MixGood n m) :
-    MixGood n (Mix.measure q det m).1 := by
-  apply mixGood_of n _ (measure_ok n q hq det m hm.ok)
+theorem measureOld_ok (n q : Nat) (hq : q < n) (det : Bool) (m : Mixture) (hm : MixOK n m) :
+    MixOK n (Mix.measureOld q det m).1 := by
   intro x hx
-  simp only [Mix.measure, List.map_map, List.mem_map] at hx
+  simp only [Mix.measureOld, List.map_map, List.mem_map] at hx
+  obtain ⟨⟨p, t⟩, hy, rfl⟩ := hx
+  obtain ⟨h1, h2⟩ := hm (p, t) hy
+  simp only [Function.comp]
+  refine ⟨?_, ?_⟩
+  · rw [Tab.norm_n, Tab.zMeasure_n]; exact h1
+  · exact Tab.norm_valid _ (Tab.zMeasure_valid t q det (h1 ▸ hq) h2)
+
+theorem measure_good (n q : Nat) (hq : q < n) (det : Bool) (m : Mixture) (hm : MixGood n m) :
+    MixGood n (Mix.measureOld q det m).1 := by
+  apply mixGood_of n _ (measureOld_ok n q hq det m hm.ok)
+  intro x hx
+  simp only [Mix.measureOld, List.map_map, List.mem_map] at hx
   obtain ⟨⟨p, t⟩, hy, rfl⟩ := hx
   obtain ⟨_, h2, h3⟩ := hm (p, t) hy
   exact norm_stabReal _ (zMeasure_stabReal t h2 h3 q det)
@@ -178,18 +190,18 @@ theorem uniformMeas_spec (q : Nat) (det : Bool) (w0 : Rat) (t0 : Tab) (rest : Mi
     exact h x hx
 
 theorem measure_cons (q : Nat) (det : Bool) (w : Rat) (t : Tab) (m : Mixture) :
-    (Mix.measure q det ((w, t) :: m)).1 = (w, (t.zMeasure q det).1.norm) :: (Mix.measure q det m).1 ∧
-    (Mix.measure q det ((w, t) :: m)).2 = (t.zMeasure q det).2.1 :: (Mix.measure q det m).2 := by
-  simp [Mix.measure]
+    (Mix.measureOld q det ((w, t) :: m)).1 = (w, (t.zMeasure q det).1.norm) :: (Mix.measureOld q det m).1 ∧
+    (Mix.measureOld q det ((w, t) :: m)).2 = (t.zMeasure q det).2.1 :: (Mix.measureOld q det m).2 := by
+  simp [Mix.measureOld]
 
 /-- all branches random: per-branch measurement is the joint measurement with forced outcome -/
 theorem measure_random (n q : Nat) (hq : q < n) (det : Bool) : ∀ (m : Mixture), MixGood n m → Uniform q det true det m →
-    mixRho n (Mix.measure q det m).1 = (2 : ℂ) • (projZ n q det * mixRho n m * projZ n q det) ∧
+    mixRho n (Mix.measureOld q det m).1 = (2 : ℂ) • (projZ n q det * mixRho n m * projZ n q det) ∧
     (∀ s, (mixRho n m * projZ n q s).trace = ((Mix.total m : ℚ) : ℂ) / 2) ∧
-    (∀ o ∈ (Mix.measure q det m).2, o = det)
+    (∀ o ∈ (Mix.measureOld q det m).2, o = det)
   | [], _, _ => by
-    refine ⟨by simp [Mix.measure, mixRho_nil], fun s => by simp [mixRho_nil, Mix.total_nil], fun o ho => ?_⟩
-    simp [Mix.measure] at ho
+    refine ⟨by simp [Mix.measureOld, mixRho_nil], fun s => by simp [mixRho_nil, Mix.total_nil], fun o ho => ?_⟩
+    simp [Mix.measureOld] at ho
   | (w, t) :: rest, hg, hu => by
     obtain ⟨hn, hv, hr⟩ := hg.head
     obtain ⟨u1, _⟩ := hu (w, t) List.mem_cons_self
@@ -211,15 +223,15 @@ theorem measure_random (n q : Nat) (hq : q < n) (det : Bool) : ∀ (m : Mixture)
 
 /-- all branches deterministic with the same outcome `o0`: nothing changes, `Π_{o0}` fixes the state -/
 theorem measure_det (n q : Nat) (hq : q < n) (det o0 : Bool) : ∀ (m : Mixture), MixGood n m → Uniform q det false o0 m →
-    mixRho n (Mix.measure q det m).1 = mixRho n m ∧
+    mixRho n (Mix.measureOld q det m).1 = mixRho n m ∧
     projZ n q o0 * mixRho n m * projZ n q o0 = mixRho n m ∧
     (mixRho n m * projZ n q o0).trace = ((Mix.total m : ℚ) : ℂ) ∧
     (mixRho n m * projZ n q (!o0)).trace = 0 ∧
-    (∀ o ∈ (Mix.measure q det m).2, o = o0)
+    (∀ o ∈ (Mix.measureOld q det m).2, o = o0)
   | [], _, _ => by
-    refine ⟨by simp [Mix.measure, mixRho_nil], by simp [mixRho_nil], by simp [mixRho_nil, Mix.total_nil],
+    refine ⟨by simp [Mix.measureOld, mixRho_nil], by simp [mixRho_nil], by simp [mixRho_nil, Mix.total_nil],
       by simp [mixRho_nil], fun o ho => ?_⟩
-    simp [Mix.measure] at ho
+    simp [Mix.measureOld] at ho
   | (w, t) :: rest, hg, hu => by
     obtain ⟨hn, hv, hr⟩ := hg.head
     obtain ⟨u1, u2⟩ := hu (w, t) List.mem_cons_self
